@@ -62,7 +62,7 @@ MANIFEST = dict(
          'writable from Python and outside the property. The Cython twin cannot be built here and is not verified.',
 )
 
-IMPORTS = ['Coq.NArith.NArith', 'Coq.ZArith.ZArith', 'Coq.Lists.List', 'SV.Fmt.VtfPixelExpr', 'SV.Fmt.VtfLayout', 'SV.Fmt.VtfSides',
+IMPORTS = ['Coq.NArith.NArith', 'Coq.ZArith.ZArith', 'Coq.Lists.List', 'SV.Fmt.VtfPixelExpr', 'SV.Fmt.VtfBluescreen', 'SV.Fmt.VtfLayout', 'SV.Fmt.VtfSides',
            'SV.Gen.PixelCodecs_gen', 'SV.Gen.VtfLayout_gen']
 IMPORTS_CONT = ['Coq.NArith.NArith', 'Coq.ZArith.ZArith', 'Coq.Lists.List', 'Coq.Strings.String', 'Coq.Bool.Bool', 'SV.Bin.Struct',
                 'SV.Fmt.VtfContainer', 'SV.Fmt.VtfWholeFile', 'SV.Gen.VtfContainer_gen']
@@ -82,6 +82,8 @@ SPECS = {
 }
 # Known finding rgb565-rb-swap: for these formats the obligation accepts "correct" or "exactly the known swap".
 SWAP_565 = {'rgb565', 'bgr565'}
+# the two keyed formats: `if` statements, compared with the hand-written codec of Fmt/VtfBluescreen.v (format -> stored as b, g, r?)
+BLUESCREEN = {'rgb888_bluescreen': 'false', 'bgr888_bluescreen': 'true'}
 EIGHT_BIT = {'rgba8888', 'bgra8888', 'argb8888', 'abgr8888', 'uvlx8888', 'uvwq8888', 'rgb888', 'bgr888', 'bgrx8888', 'a8', 'uv88'}
 
 
@@ -1956,7 +1958,13 @@ def run(ck: Ck) -> None:
     if built:
         codecs_done = corr_codecs(ck, cod)     # six coqc processes in the background while the stages below run
         obs: dict[str, str] = {}
-        for name in sorted(set(SPECS) | set(cod)):
+        for name in sorted(set(SPECS) | set(cod) | set(BLUESCREEN)):
+            if name in BLUESCREEN:
+                if name not in cod:
+                    obs[f'codec_{name}_still_translated'] = 'false'
+                else:
+                    obs[f'{name}_stores_alpha_below_128_as_pure_blue_and_loads_pure_blue_as_transparent_black'] = f'bs_ok {BLUESCREEN[name]} codec_{name}'
+                continue
             if name not in SPECS:
                 obs[f'codec_{name}_has_a_specification'] = 'false'
                 continue
